@@ -51,6 +51,8 @@ package raft
 //@   ensures [C12.install-label] result0 == success ==> r.snaps.index == req.lastIndex && r.snaps.term == req.lastTerm
 //@   ensures [C09+C03.install-keeps-matching-suffix] result0 == success && old(r.log.gprev) < req.lastIndex && req.lastIndex <= old(r.lastLogIndex) && old(r.gterm[req.lastIndex]) == req.lastTerm ==> r.lastLogIndex == old(r.lastLogIndex) && r.commitIndex == old(r.commitIndex) && r.configs.Latest == old(r.configs.Latest) && r.log.gprev <= req.lastIndex
 //@   ensures [C09+C03.install-discards-otherwise] result0 == success && !(old(r.log.gprev) < req.lastIndex && req.lastIndex <= old(r.lastLogIndex) && old(r.gterm[req.lastIndex]) == req.lastTerm) ==> r.lastLogIndex == req.lastIndex && r.log.gprev == req.lastIndex && r.commitIndex == req.lastIndex && r.configs.Latest == req.lastConfig && r.configs.Committed == req.lastConfig
+// C12: after an installation that discarded the log the node's membership is the one in the label
+//@   ensures [C12.install-config] result0 == success && !(old(r.log.gprev) < req.lastIndex && req.lastIndex <= old(r.lastLogIndex) && old(r.gterm[req.lastIndex]) == req.lastTerm) ==> r.configs.Latest == req.lastConfig && r.configs.Committed == req.lastConfig
 //@   ensures [C19.commit-monotone] result0 == success ==> r.commitIndex >= old(r.commitIndex)
 //@   ensures [C19.snapshot-monotone] r.snaps.index >= old(r.snaps.index)
 //@   ensures [C19.order] result0 == success ==> r.log.gprev <= r.snaps.index && r.snaps.index <= r.lastLogIndex && r.commitIndex <= r.lastLogIndex && r.log.glast == r.lastLogIndex
